@@ -1025,9 +1025,16 @@ def rand_rule(rng, nstates=5, multi_arity=True):
 def g_tah_store(rng):
     """C12: the five mutators on one automaton interleaved with all read-only views"""
     steps = ["new"]
+    # in a third of the histories the per-step views leave out AreTransitionsEmpty() (it unshares the rule container) and a SNAPSHOT
+    # (copy) is taken right before a Clear / a mutation: the mutators then run on a container that is still shared
+    note = rng.random() < 0.33
+    if note:
+        steps.append("opt!note")
     added = []
     for _ in range(rng.randint(4, 24)):
         c = rng.random()
+        if note and rng.random() < 0.15:
+            steps.append("copy!0")
         if c < 0.45:
             r = rng.choice(added) if (added and rng.random() < 0.3) else rand_rule(rng)
             added.append(r)
@@ -1039,6 +1046,8 @@ def g_tah_store(rng):
         elif c < 0.72:
             steps.append("erasefinal!0")
         elif c < 0.80:
+            if note and rng.random() < 0.6:
+                steps.append("copy!0")
             steps.append("clear!0")
         else:
             probes = [rng.choice(added) for _ in range(min(len(added), 2))] + [rand_rule(rng) for _ in range(2)]
